@@ -30,37 +30,57 @@ Definition hdr_of (r : res tx) : res txhdr :=
 Inductive case :=
 (* crypto/sha256.Sum256 on inp *)
 | CSha (inp out : bytes)
-(* ImmuStore.ReadTx(id, skip = negb chk, holder) where stream = tx-log bytes from the offset the
-   commit log gives for id up to the end of the log; holder = NewTx(nslots, maxKeyLen) *)
-| CTx (chk : bool) (nslots maxKeyLen : N) (stream : bytes) (out : res tx)
-(* ImmuStore.ReadTxHeader(id, false, false) on the same stream *)
-| CHdr (nslots maxKeyLen : N) (stream : bytes) (out : res txhdr)
+(* one (possibly corrupted) transaction read three ways on the same opened store; stream = tx-log
+   bytes from the offset the commit log gives for the id up to the end of the log;
+   out = ImmuStore.ReadTx(id, false, holder) with holder = NewTx(nslots, maxKeyLen);
+   skip = ImmuStore.ReadTx(id, true, holder) (skipIntegrityCheck), when it was made;
+   hdr = ImmuStore.ReadTxHeader(id, false, false), when it was made *)
+| CTx (nslots maxKeyLen : N) (stream : bytes) (out : res tx) (skip : option (res tx))
+      (hdr : option (res txhdr))
 (* pristine store: the record found in the tx log for the transaction Go read back as t *)
 | CWrite (t : tx) (rec : bytes)
 (* pristine store with embedded values: the bytes that precede the record *)
 | CEmb (vals : list bytes) (pre : bytes)
-(* ImmuStore.ReadValue on an entry with (vlen, off, hval); mvl = the store's MaxValueLen; mode 0 embedded / 1 single vlog /
-   2 several vlogs; txlog is given in embedded mode only *)
-| CVal (mvl mode : N) (txlog : bytes) (vlogs : list bytes) (vlen off : N) (hval : bytes) (out : res bytes)
+(* a session of value reads on ONE opened store, in the order they were made (the value cache, when
+   the store has one, carries over from one read to the next): mvl = MaxValueLen; mode 0 embedded /
+   1 single vlog / 2 several vlogs; usecache = VLogCacheSize > 0; txlog given in embedded mode only *)
+| CSess (mvl mode : N) (usecache : bool) (txlog : bytes) (vlogs : list bytes) (ops : list vop)
+with vop :=
+(* ImmuStore.ReadValue on an entry with (vlen, off, hval) *)
+| VRead (vlen off : N) (hval : bytes) (out : res bytes)
 (* the value part of ImmuStore.ExportTx(id, false, false, holder): es = (vLen, vOff, hVal) of the
    entries ReadTx returned; out = the "values truncated" flag and the per-entry payloads *)
-| CExp (mvl mode : N) (txlog : bytes) (vlogs : list bytes) (es : list (N * N * bytes))
-       (out : res (bool * list bytes)).
+| VExp (es : list (N * N * bytes)) (out : res (bool * list bytes)).
+
+Definition exp_eqb (a b : bool * list bytes) : bool :=
+  Bool.eqb (fst a) (fst b) && list_eqb bytes_eqb (snd a) (snd b).
+
+Fixpoint sess_ok (mvl : N) (m : vmode) (txlog : bytes) (vlogs : list bytes) (c : option vcache)
+         (ops : list vop) : bool :=
+  match ops with
+  | [] => true
+  | VRead vlen off hval o :: r =>
+      let '(x, c') := read_value sha256 mvl m txlog vlogs c vlen off hval in
+      res_eqb bytes_eqb x o && sess_ok mvl m txlog vlogs c' r
+  | VExp es o :: r =>
+      let '(x, c') := export_values sha256 true mvl m txlog vlogs c
+           (map (fun x => {| e_md := None; e_key := []; e_vlen := fst (fst x); e_voff := snd (fst x);
+                             e_hval := snd x |}) es) 0 false in
+      res_eqb exp_eqb x o && sess_ok mvl m txlog vlogs c' r
+  end.
 
 Definition case_ok (c : case) : bool :=
   match c with
   | CSha i o => bytes_eqb (sha256 i) o
-  | CTx chk ns mk s o =>
-      res_eqb tx_eqb (read_tx_at sha256 chk ns mk s 0 (len s)) o
-  | CHdr ns mk s o =>
-      res_eqb txhdr_eqb (hdr_of (read_tx_at sha256 true ns mk s 0 (len s))) o
+  | CTx ns mk s o sk hd =>
+      let r := read_tx_at sha256 true ns mk s 0 (len s) in
+      res_eqb tx_eqb r o &&
+      (match sk with
+       | Some o' => res_eqb tx_eqb (read_tx_at sha256 false ns mk s 0 (len s)) o'
+       | None => true end) &&
+      (match hd with Some o' => res_eqb txhdr_eqb (hdr_of r) o' | None => true end)
   | CWrite t rec => res_eqb bytes_eqb (write_tx sha256 t) (Ok rec)
   | CEmb vals pre => bytes_eqb (write_embedded_prefix vals) pre
-  | CVal mvl m txlog vlogs vlen off hval o =>
-      res_eqb bytes_eqb (read_value sha256 mvl (vmode_of m) txlog vlogs vlen off hval) o
-  | CExp mvl m txlog vlogs es o =>
-      res_eqb (fun a b => Bool.eqb (fst a) (fst b) && list_eqb bytes_eqb (snd a) (snd b))
-        (export_values sha256 true mvl (vmode_of m) txlog vlogs
-           (map (fun x => {| e_md := None; e_key := []; e_vlen := fst (fst x); e_voff := snd (fst x);
-                             e_hval := snd x |}) es) 0 false) o
+  | CSess mvl m uc txlog vlogs ops =>
+      sess_ok mvl (vmode_of m) txlog vlogs (if uc then Some [] else None) ops
   end.
